@@ -8,84 +8,36 @@ From NV Require Import C07.Model C07.Lemmas.
 Import ListNotations.
 Open Scope Z_scope.
 
-(* FULL STATEMENT (for every image state): a save that succeeds leaves the image object as
-   it was.  False of the faithful model when a dtype alias is pending and resolves to a type
-   other than the header's (finding S-C07b, see C07_success_preserves_refuted).  Proved:
-   for every harmonised state whose alias, if any, is stable. *)
-Theorem C07_success_preserves_partial :
+(* a save that succeeds leaves the image object exactly as it was — every harmonised state,
+   with or without a pending dtype alias *)
+Theorem C07_success_preserves :
   forall o resolve dt_ok wfail scale nslabs exts nmat D K od i,
-  harmonised K i -> alias_stable resolve i ->
+  harmonised K i ->
   forall s', run_save o resolve dt_ok wfail scale nslabs exts nmat D K od i = (Ok tt, s') ->
   rimg s' = i.
 Proof.
-  intros o resolve dt_ok wfail scale nslabs exts nmat D K od i Hh Ha s' E.
-  pose proof (preserved o resolve dt_ok wfail scale nslabs exts nmat D K od i Hh Ha) as H.
+  intros o resolve dt_ok wfail scale nslabs exts nmat D K od i Hh s' E.
+  pose proof (preserved o resolve dt_ok wfail scale nslabs exts nmat D K od i Hh) as H.
   rewrite E in H. exact H.
 Qed.
-Print Assumptions C07_success_preserves_partial.
+Print Assumptions C07_success_preserves.
 
 (* for EVERY fault oracle (in particular: the k-th call fails, for every k) and every error
    the run ends with (OSError, WriterError, HeaderDataError, ValueError): the image object
-   is as it was.  Same guard as above, same refutation without it. *)
-Theorem C07_fault_preserves_partial :
+   is exactly as it was — offset, datatype, slope, intercept, magic, alias, data, affine *)
+Theorem C07_fault_preserves :
   forall o resolve dt_ok wfail scale nslabs exts nmat D K od i,
-  harmonised K i -> alias_stable resolve i ->
+  harmonised K i ->
   forall e s', run_save o resolve dt_ok wfail scale nslabs exts nmat D K od i = (Err e, s') ->
   rimg s' = i.
 Proof.
-  intros o resolve dt_ok wfail scale nslabs exts nmat D K od i Hh Ha e s' E.
-  pose proof (preserved o resolve dt_ok wfail scale nslabs exts nmat D K od i Hh Ha) as H.
+  intros o resolve dt_ok wfail scale nslabs exts nmat D K od i Hh e s' E.
+  pose proof (preserved o resolve dt_ok wfail scale nslabs exts nmat D K od i Hh) as H.
   rewrite E in H. exact H.
 Qed.
-Print Assumptions C07_fault_preserves_partial.
+Print Assumptions C07_fault_preserves.
 
-(* without the guard, for every state, oracle and outcome: data, affine, alias, offset, slope,
-   intercept and magic are as before; the header datatype is as before or is the type the
-   pending alias resolved to *)
-Theorem C07_final_state :
-  forall o resolve dt_ok wfail scale nslabs exts nmat D K od i,
-  harmonised K i ->
-  let i' := rimg (snd (run_save o resolve dt_ok wfail scale nslabs exts nmat D K od i)) in
-  alias i' = alias i /\ data i' = data i /\ aff i' = aff i /\
-  off (ih i') = off (ih i) /\ slope (ih i') = slope (ih i) /\ inter (ih i') = inter (ih i) /\
-  magic (ih i') = magic (ih i) /\
-  (dt (ih i') = dt (ih i) \/
-   exists a r, alias i = Some a /\ resolve a (data i) = Some r /\ dt (ih i') = r /\ nifti K = true).
-Proof. exact final_state. Qed.
-Print Assumptions C07_final_state.
-
-(* S-C07b: NIfTI-1 single file, int32 header, alias 'smallest' resolving to uint8: a save with
-   no fault succeeds and leaves uint8 in the header; a save that fails at the first data
-   write does too *)
-Theorem C07_success_preserves_refuted :
-  exists resolve dt_ok wfail scale nslabs exts nmat D K od i s',
-    harmonised K i /\
-    run_save healthy resolve dt_ok wfail scale nslabs exts nmat D K od i = (Ok tt, s') /\
-    rimg s' <> i.
-Proof.
-  exists (fun _ _ => Some 2), (fun _ => true), (fun _ _ => false), (fun _ _ => (SVal 1, SVal 0)),
-         (fun _ => 2%nat), [], 0%nat, (mkDest false false false),
-         (mkK FAnalyze true 348 true true true 1 false), None,
-         (mkImg (mkHdr 0 8 SNan SNan 1) (Some Smallest) 7 9).
-  eexists. split; [intros _; reflexivity|]. split; [vm_compute; reflexivity|]. vm_compute. discriminate.
-Qed.
-Print Assumptions C07_success_preserves_refuted.
-
-Theorem C07_fault_preserves_refuted :
-  exists k resolve dt_ok wfail scale nslabs exts nmat D K od i s',
-    harmonised K i /\
-    run_save (fail_at k) resolve dt_ok wfail scale nslabs exts nmat D K od i = (Err EOS, s') /\
-    rimg s' <> i.
-Proof.
-  exists 4%nat, (fun _ _ => Some 2), (fun _ => true), (fun _ _ => false), (fun _ _ => (SVal 1, SVal 0)),
-         (fun _ => 2%nat), [], 0%nat, (mkDest false false false),
-         (mkK FAnalyze true 348 true true true 1 false), None,
-         (mkImg (mkHdr 0 8 SNan SNan 1) (Some Smallest) 7 9).
-  eexists. split; [intros _; reflexivity|]. split; [vm_compute; reflexivity|]. vm_compute. discriminate.
-Qed.
-Print Assumptions C07_fault_preserves_refuted.
-
-(* after ANY run (any oracle, any outcome, also with a pending alias) a further save — with
+(* after ANY run (any oracle, any outcome, any pending alias) a further save — with
    any oracle, in particular to a healthy destination — behaves exactly as the same save of
    the original image: same outcome, same calls, same symbolic content written, same final
    state *)
@@ -120,18 +72,24 @@ Print Assumptions C07_deterministic.
    offset 352 — the try block really changes the consumables — yet ends in the initial
    state; the save failing at the first data write (call 4) ends in OSError and the initial
    state; a failing seek before the data (call 3) is absorbed by seek_tell and the save
-   succeeds *)
+   succeeds.  Second image: int32 header (code 8) with a pending alias 'smallest' resolving to
+   uint8 (code 2): the header written carries 2, the object keeps 8 and the alias, after a
+   healthy save and after a save failing at the first data write. *)
 Example C07_nonvacuous :
   let K := mkK FAnalyze true 348 true true true 1 false in
   let i := mkImg (mkHdr 0 4 SNan SNan 1) None 7 9 in
-  let run o := run_save o (fun _ _ => None) (fun _ => true) (fun _ _ => false)
-                 (fun _ _ => (SVal 11, SVal 22)) (fun _ => 2%nat) [] 0%nat (mkDest false false false) K None i in
-  harmonised K i /\ alias_stable (fun _ _ => None) i /\
-  fst (run healthy) = Ok tt /\ rk (snd (run healthy)) = 6%nat /\ rimg (snd (run healthy)) = i /\
-  In (FI, CWrite (KHeader (mkHdr 352 4 (SVal 11) (SVal 22) 1))) (rlog (snd (run healthy))) /\
-  fst (run (fail_at 4)) = Err EOS /\ rimg (snd (run (fail_at 4))) = i /\
-  fst (run (fail_at 3)) = Ok tt /\ rk (snd (run (fail_at 3))) = 7%nat.
+  let j := mkImg (mkHdr 0 8 SNan SNan 1) (Some Smallest) 7 9 in
+  let run x o := run_save o (fun _ _ => Some 2) (fun _ => true) (fun _ _ => false)
+                 (fun _ _ => (SVal 11, SVal 22)) (fun _ => 2%nat) [] 0%nat (mkDest false false false) K None x in
+  harmonised K i /\ harmonised K j /\
+  fst (run i healthy) = Ok tt /\ rk (snd (run i healthy)) = 6%nat /\ rimg (snd (run i healthy)) = i /\
+  In (FI, CWrite (KHeader (mkHdr 352 4 (SVal 11) (SVal 22) 1))) (rlog (snd (run i healthy))) /\
+  fst (run i (fail_at 4)) = Err EOS /\ rimg (snd (run i (fail_at 4))) = i /\
+  fst (run i (fail_at 3)) = Ok tt /\ rk (snd (run i (fail_at 3))) = 7%nat /\
+  fst (run j healthy) = Ok tt /\ rimg (snd (run j healthy)) = j /\
+  In (FI, CWrite (KHeader (mkHdr 352 2 (SVal 11) (SVal 22) 1))) (rlog (snd (run j healthy))) /\
+  fst (run j (fail_at 4)) = Err EOS /\ rimg (snd (run j (fail_at 4))) = j.
 Proof.
-  cbv zeta. split; [intros _; reflexivity|]. split; [exact I|].
-  vm_compute. repeat split; try reflexivity. repeat ((left; reflexivity) || right).
+  cbv zeta. split; [intros _; reflexivity|]. split; [intros _; reflexivity|].
+  vm_compute. repeat split; try reflexivity; repeat ((left; reflexivity) || right).
 Qed.
